@@ -492,3 +492,5 @@ def run(tier, seed):
              "states": col.counters.get("states", 0), "transitions": col.counters.get("transitions", 0),
              "traces_validated_against_impl": col.counters.get("traces_validated_against_impl", 0)}
     return col, extra
+
+RULE += (' Beyond small: archives of 31..257 (thorough 1000) members offered in four orders with dominated, infeasible and repeated points; designs evaluated by the framework (some after transient failures, with and without constraints) offered to a Pareto archive, feasibility derived from the constraints.')
